@@ -599,6 +599,52 @@ def cdata_regression(ctx, binp):
                               dict(doc=d, wopts=w, op='c07-write', part='cdata-end regression'))
 
 
+F32_TEXTS = ['1.5', '-2.25', '1e10', '3.4e38', '3.4028234e38', '3.4028235e38', '3.40282356e38', '3.40282357e38', '3.4028236e38', '-3.4028236e38',
+             '3.5e38', '1e39', '1e40', '-1e40', '1e300', '1e308', '1e309', '1e400', '-1e400', '1e-30', '123456.789', '-0.001', '7']
+
+
+def f32_parse_tie(ctx, binp, nrand):
+    """K `f32-parse`: number attribute texts (around the f32 overflow threshold, beyond f64) -> <feComposite k1="..">; the k1 the tree holds
+    (0 = attribute rejected) is compared in Coq with Model/NumParse.v (`parse_f32` over the source-derived step order).
+    -> (cases, [(doc, text, got)] disagreements, [text] model counterexamples: accepted but not finite) or None"""
+    from fractions import Fraction
+    import math
+    rng = ctx.rng
+    texts = list(F32_TEXTS)
+    for _ in range(nrand):
+        texts.append('%s%d.%de%d' % (rng.choice(['', '-']), 1 + rng.below(9), rng.below(1000), rng.choice([0, 5, 20, 36, 37, 38, 38, 39, 45, 200, 320])))
+    docs = ['<svg %s width="100" height="100"><filter id="f"><feComposite operator="arithmetic" k1="%s" k2="1" in2="SourceAlpha"/></filter>'
+            '<rect width="50" height="50" filter="url(#f)"/></svg>' % (NS, t) for t in texts]
+    outs = ctx.rvh_batch(binp, 'dump', ["-\t" + d for d in docs])
+    items, imap = [], []
+    for t, d, o in zip(texts, docs, outs):
+        try:
+            r = json.loads(o)
+            k1 = r['filters'][0]['primitives'][0]['kind']['op']['Arithmetic'][0]
+        except (ValueError, KeyError, IndexError, TypeError):
+            k1 = None
+        f = float(t)
+        v = ('(Inf %s)' % ('true' if f < 0 else 'false')) if math.isinf(f) else '(Fin (%d # %d))' % Fraction(f).as_integer_ratio()
+        if isinstance(k1, (int, float)) and not (math.isinf(k1) or math.isnan(k1)):
+            g = '(Some (%d # %d))' % Fraction(k1).as_integer_ratio()
+        else:
+            g = 'None'
+        items.append('(%s, %s)' % (v, g))
+        imap.append((d, t, k1 if k1 is not None else str(o)[:120]))
+        ctx.note_case('f32/' + t, nontrivial=abs(f) > 1e38)
+    body = ("From Coq Require Import QArith List Bool.\nImport ListNotations.\n"
+            "Definition cases : list (fv * option Q) := [\n%s\n].\n"
+            "Eval vm_compute in (bad_indices (fun c => chk_parsed (fst c) (snd c)) cases).\n"
+            "Eval vm_compute in (bad_indices (fun c => chk_parse_finite (fst c)) cases).\n" % ";\n".join(items))
+    rc, out = ctx.coq_eval('k_f32parse', body, ['Gen.NumParse', 'Model.NumParse', 'Model.Corr'])
+    lists = re.findall(r"=\s*\[(.*?)\]\s*:\s*list", out, re.S) if rc == 0 else []
+    if len(lists) != 2:
+        ctx.log("model evaluation (f32-parse) failed:\n" + out[-1500:])
+        return None
+    bl = [[int(re.sub(r"%\w+", "", x).strip().strip('()')) for x in l.split(';')] if l.strip() else [] for l in lists]
+    return len(items), [imap[b] for b in bl[0]], [imap[b] for b in bl[1]]
+
+
 def src_of(doc):
     """source text of a document, with the text of nested SVG images (base64 data URLs) appended"""
     import base64
@@ -631,7 +677,7 @@ def run(ctx):
     broken = ctx.translate()
     res = ctx.coq_props()
     proof_ok = res['ok'] and not broken
-    ctx.coq_build(['Model/Corr.v', 'Model/Writer.v', 'Model/WriteNum.v', 'Model/XmlEscape.v'])      # what the correspondence evaluations import
+    ctx.coq_build(['Model/Corr.v', 'Model/Writer.v', 'Model/WriteNum.v', 'Model/XmlEscape.v', 'Model/NumParse.v'])      # what the correspondence evaluations import
     if not quick and hasattr(ctx, 'coqchk') and res['ok']:
         if not ctx.coqchk():
             proof_ok = False
@@ -858,6 +904,22 @@ def run(ctx):
         for what, d, w, detail in er[1][:4]:
             ctx.violation("escape: %s: %s; Model/XmlEscape.v (escaping derived from the xmlwriter source and writer.rs) disagrees" % (what, detail),
                           dict(doc=d, wopts=w, op='c07-write', part='escape'))
+
+    # ------------------------------------------------------------------ K: f32-parse (svgtree FromValue for f32)
+    fr = f32_parse_tie(ctx, binp, 20 if quick else 400)
+    f32_cex = []
+    if fr is None:
+        ctx.violation("the f32-parse correspondence could not be evaluated", dict(op='f32-parse'), found_input=False)
+    else:
+        ctx.cov['f32_parse_cases'] = fr[0]
+        f32_cex = fr[2]
+        for d, t, got in fr[1][:4]:
+            ctx.violation("f32-parse: the attribute text %r gives k1=%r in the tree; Model/NumParse.v (step order of `FromValue for f32` derived from "
+                          "svgtree/mod.rs) disagrees" % (t, got), dict(doc=d, op='dump', part='f32-parse', text=t))
+    if not proof_ok and not ctx.violations and f32_cex:
+        d, t, got = f32_cex[0]
+        ctx.violation("model counterexample: with the source-derived step order `FromValue for f32` accepts %r as a non-finite number (it would be "
+                      "written as inf / NaN)" % t, dict(doc=d, op='dump', part='f32-parse', text=t, failed_files=res['failed'], broken_ties=broken))
 
     # ------------------------------------------------------------------ proof broke: model-level search
     if not proof_ok and not ctx.violations and esc_cex:
